@@ -122,10 +122,11 @@ namespace sim
     std::uint32_t count_mask1;  // kinds counted as eligible before the first throw
     std::uint32_t count_mask2;
     bool          stream_faults;// iterator / generator events are fault eligible
+    bool          clear_moved_from; // twin mode: the history clears the source of every move
 
     run_cfg (void)
       : valmod (120), faults (false), nops (20), profile (0), count_mask1 (MASK_ALL),
-        count_mask2 (MASK_ALL), stream_faults (true)
+        count_mask2 (MASK_ALL), stream_faults (true), clear_moved_from (false)
     { }
   };
 
